@@ -251,10 +251,25 @@ def model_call(sig, case):
     return {"pos": pos, "kw": kw, "star": None, "starkw": None}
 
 
+_collapses = []
+
+
+def impl_collapses():
+    """does the implementation under test identify literal tuples that are == but differ in the types of
+    their members (KnownValue((True,)) == KnownValue((1,)))?  Probed, like the acceptance table, so that
+    the model of the merged union follows the implementation (True on the unrepaired code; False once
+    repo_fixes/C06-known-value-tuple-equality is applied, which removes the known finding)."""
+    if not _collapses:
+        from pyanalyze.value import KnownValue
+
+        _collapses.append(KnownValue((True,)) == KnownValue((1,)))
+    return _collapses[0]
+
+
 def collapse_equal(case):
     """the case as pyanalyze sees it after unite_values dropped every literal alternative that is == to an
     earlier one; None when nothing is dropped (TypedDict alternatives are types, not literals)"""
-    if case["kind"] != "starlit":
+    if case["kind"] != "starlit" or not impl_collapses():
         return None  # dict displays are DictIncompleteValues: their values are compared one by one, with their types
     def py(alt):
         if case["kind"] == "starlit":
